@@ -26,6 +26,12 @@ CLAIMED = {
  "C04": dict(
    text="sendTargetCommand with resume enabled against the model target (MULTI/EXEC semantics): every flushed group is MULTI, commands, [run id, version], offset, EXEC with the offset of the group's last command, never spanning a SELECT, flushes end on group boundaries; the recorded Send trace is cut at EVERY position and replayed into a fresh model: applied data commands = items with Offset <= stored offset; restart leg: LoadCheckpoint reads back exactly what the sender stored and a resumed parser first re-selects the recorded database",
    note=NOTE_COMMON + "cuts fall between commands (a partially received command equals not received); k <= 2 items quick (3 thorough); every tick/arrival interleaving within the preemption bound"),
+ "C05": dict(
+   text="waitRdbDump ('$<n>' header with 0..2 keep-alive newlines, 1..3 symbolic digits, every read size), Iocopy (one bounded copy from an arbitrary reader position, symbolic max), SendPSyncContinue on +FULLRESYNC/+CONTINUE replies in three letter-case styles with symbolic run id and offset digits followed by '$n' and data over real bufio with symbolic fragmentation, and runIncrementalSync end to end (RDB loop, pSyncPipeCopy, reconnect with scripted second connection) into the real pipe: the consumer sees exactly the n RDB bytes then the command bytes, in order, across segmentations and the reconnect; run id / offset / size are the announced ones; the request is PSYNC runid offset+1",
+   note=NOTE_COMMON + "RDB <= 3 bytes, command bytes <= 4; {1, half, all} fragmentation for the PSYNC reply family; dump mode (dbDumper) is not covered (package run: see C07/C16 notes); network dialing stubbed"),
+ "C08": dict(
+   text="pSyncPipeCopy with a scripted source connection (1..3 reads of symbolic size, then a read error) and the 1 s ticker replaced by a channel the harness feeds before any read: every REPLCONF ACK after full sync must equal start offset + bytes received so far, be non-decreasing and never ahead, 0 before full sync; returned byte count and forwarded bytes exact; after a drop runIncrementalSync must ask PSYNC runid (start + received + 1); parser tagging offset = start + decoder position (VF_C03_Parse); SendPSyncContinue request side",
+   note=NOTE_COMMON + "two known findings (acknowledged offset runs ahead from the second tick; PSYNC after a drop re-requests bytes received since the last tick), both from the same bookkeeping; wall-clock durations replaced by event order"),
  "C09": dict(
    text="ring offset lemmas (roffset/woffset) for arbitrary 64-bit positions; one-step refinement of memBuffer/fileBuffer readSome/writeSome from an arbitrary valid symbolic state against a ghost stream; sequential close rules on the real pipe; protocol runs with a writer goroutine and the reader in the main goroutine where every interleaving at mutex/cond/channel granularity (preemption bound 2, thorough 3) is a branch of the search, with deadlock detection and an explicit hand-shake so that wake-up must come from progress, not from close",
    note=NOTE_COMMON + "concrete ring sizes in the lemmas (a symbolic size is not decided within 60 s by any back end); step lemmas on an 8-byte ring; stream-length induction on paper; sync.Mutex/Cond/WaitGroup are engine primitives; schedule-dependent counterexamples are replayed by engine-concrete re-execution"),
